@@ -96,6 +96,10 @@ def classify(prop, desc):
     if 'VP_REACH' in desc:
         return 'reach'
     p = prop
+    if 'dereferenced function pointer must be' in desc and 'one of' not in desc:
+        # the asserted side of a --restrict-function-pointer directive of this framework (job option restrict_fp):
+        # if an edit renumbers the call sites of a function the directive names another site; that is scaffolding
+        return 'A'
     if re.search(r'loop_invariant_base|loop_invariant_step|loop_decreases|loop_assigns|\.unwind\.|\.recursion', p):
         return 'A'
     if 'unwinding assertion' in desc or 'recursion unwinding' in desc:
